@@ -46,7 +46,10 @@ def main():
                     try:
                         obj.dump(dest)
                     except Exception as exc:  # noqa
-                        if existing:
+                        if existing and not os.path.exists(dest):
+                            findings.append({"bucket": "destination-removed-by-failed-dump", "message": "%s = %r in a process with locale encoding %s: dump raised %s and the destination is gone" % (
+                                label, text, locale.getpreferredencoding(False), type(exc).__name__)})
+                        elif existing:
                             with open(dest, "rb") as fo:
                                 now = fo.read()
                             if now != good.encode("ascii"):
